@@ -105,14 +105,14 @@ func Untar(
 		if tarHeader.Size < 0 {
 			return fmt.Errorf("invalid size for tar file %s: %d", tarHeader.Name, tarHeader.Size)
 		}
-		if isAppleExtendedAttributesFile(tarHeader.FileInfo()) {
-			continue
-		}
 		path, ok, err := unmapArchivePath(tarHeader.Name, untarOptions.filePathMatcher, untarOptions.stripComponentCount)
 		if err != nil {
 			return err
 		}
 		if !ok || !tarHeader.FileInfo().Mode().IsRegular() {
+			continue
+		}
+		if isAppleExtendedAttributesFile(tarHeader.FileInfo()) {
 			continue
 		}
 		if untarOptions.maxFileSize != 0 && tarHeader.Size > untarOptions.maxFileSize {
